@@ -51,9 +51,14 @@ MANIFEST = {
             "compute() of element-wise expressions = the expression in memory on the concatenated streams for every common "
             "cutting (graph_value[_many]); np.sum / np.mean (sum,n) / np.histogram(edges) reduction nodes, alone or joined, fold to "
             "their in-memory value (graph_reduced_value); node[mask_node] = the filter of the concatenation "
-            "(graph_filter_value). stream=True genome pipelines: chunks -> group-by -> iter_chromosomes "
+            "(graph_filter_value); any composition of element-wise nodes and mask selections, and reductions over them "
+            "(a[m] + 1, np.sum(a[m]), a[m1][m2]: graph_value_sel, graph_reduced_filter_value, under buffer-wise shape "
+            "correctness of the streamed run). The streamed reductions are error-valued where the code raises: no chunks -> "
+            "TypeError / StopIteration (meanStream_error_iff, bincountStream_none_iff, histogramStream_stop_iff, "
+            "quantileStream_emptyStream_iff), no data -> quantile IndexError in both modes (quantileMem_noData_iff), decreasing "
+            "histogram edges -> ValueError in both modes (histogramMem_error_iff). stream=True genome pipelines: chunks -> group-by -> iter_chromosomes "
             "(model of the genome-order walk) -> per-chromosome pile-up / mask / sum / values under chromosome-sorted peaks, "
-            "concatenated, = the whole-genome in-memory result of C10 (per_chromosome, per_chromosome_values; uses C10.cover_local "
+            "concatenated, = the whole-genome in-memory result of C10 (per_chromosome, per_chromosome_data_hist, per_chromosome_values; uses C10.cover_local "
             "and C10.extract_reversed). Correspondence: all 2^(n-1) chunkings of every small sorted dataset x every computation, "
             "graphs / reductions / multi-root / pipelines, impl vs Lean model vs Lean spec vs pure-Python oracle vs the "
             "implementation's own in-memory result.",
@@ -182,6 +187,14 @@ def _many_fixed():
         ([("add", N(0), C(0)), ("gt", N(0), C(2)), ("sel", N(2), N(3))], [4], "concat"),
         ([("add", N(0), N(1)), ("gt", N(1), N(2)), ("sel", N(2), N(3)), ("gt", N(0), C(4))], [4, 5, 2], "concat"),
         ([("mul", N(0), C(2)), ("gt", C(5), N(0)), ("sel", N(2), N(3))], [4], "concat"),
+        # compositions with a selection BELOW other nodes (graph_value_sel, graph_reduced_filter_value), x = a + 0, y = b * 1
+        # (a StreamNode itself has no __getitem__): np.sum(x[x > 2]); x[x > 2] + 1; x[m] + y[m]; mean / histogram of x[m1][m2]
+        ([("add", N(0), C(0)), ("gt", N(2), C(2)), ("sel", N(2), N(3)), R("sum", 4)], [5], "reduce"),
+        ([("add", N(0), C(0)), ("gt", N(0), C(2)), ("sel", N(2), N(3)), ("add", N(4), C(1))], [5], "concat"),
+        ([("add", N(0), C(0)), ("mul", N(1), C(1)), ("gt", N(0), C(2)), ("sel", N(2), N(4)), ("sel", N(3), N(4)), ("add", N(5), N(6))],
+         [7, 5], "concat"),
+        ([("add", N(0), C(0)), ("gt", N(0), C(2)), ("sel", N(2), N(3)), ("gt", N(4), C(4)), ("sel", N(4), N(5)), R("sumN", 6),
+          R("hist", 4, edges=E)], [7, 8], "reduce"),
     ]
 
 
@@ -242,6 +255,20 @@ def cases(tier, rng):
                     ks = _keys_from_pattern(n, (mask * 5 + pos) % (2 ** (n - 1)) if n > 1 else 0)
                     yield {"op": "groupby", "kt": kt, "fast": kt == "ragged",
                            "chunks": ins(_cut([[k, i] for i, k in enumerate(ks)], mask))}
+    # 0d. the borders of the reductions' domain (audit review #1-#3): the stream WITHOUT chunks (zero chunks is a
+    #     chunking of the empty array: in memory mean -> nan, bincount -> minlength zeros, histogram -> zero counts,
+    #     quantile -> IndexError), streams whose chunks are ALL empty, edges that decrease / are equal / are fewer than two
+    for ch in ([], [[]], [[], []], [[], [], []]):
+        yield {"op": "mean", "chunks": ch, "scale": 1}
+        yield {"op": "bincount", "chunks": ch, "minlength": 0}
+        yield {"op": "bincount", "chunks": ch, "minlength": 3}
+        yield {"op": "histogram", "chunks": ch, "edges": [0, 2, 4], "how": "edges"}
+        yield {"op": "histogram", "chunks": ch, "edges": [4, 2], "how": "edges"}
+        yield {"op": "quantile", "chunks": ch, "qp": 1, "qd": 2}
+        yield {"op": "mean_axis0", "chunks": ch, "w": 2}
+    for ch in ([[1, 2, 1]], [[1, 2], [1]], [[1], [], [2, 1]], [[], [1, 2, 1]]):
+        for edges in ([], [3], [1], [3, 1], [1, 3, 2], [0, 2, 1, 5], [1, 1], [1, 1, 2], [0, 2, 2, 5], [2, 2, 2]):
+            yield {"op": "histogram", "chunks": ch, "edges": edges, "how": "edges"}
     # 1. exhaustive chunkings
     for n in range(1, N + 1):
         for mask in range(2 ** (n - 1)):
@@ -349,11 +376,18 @@ def cases(tier, rng):
                     roots[0] = len(nodes) - 1
                 yield {"op": "graph_many", "nodes": nodes, "roots": roots, "mode": "concat"}
             else:
+                comps = [i for i, nd in enumerate(nodes) if nd["k"] == "comp" and nd.get("f") != "gt"]
+                selnode = None
+                if comps and rng.random() < 0.4:             # a reduction over a selection: np.sum(x[y > c]) and the like
+                    nodes.append({"k": "comp", "f": "gt", "a": {"node": rng.randrange(len(nodes))}, "b": {"const": rng.randrange(-2, 5)}})
+                    nodes.append({"k": "comp", "f": "sel", "a": {"node": rng.choice(comps)}, "b": {"node": len(nodes) - 1}})
+                    selnode = len(nodes) - 1
                 ew = len(nodes)
                 roots = []
                 for _ in range(rng.randrange(1, 4)):
                     f = rng.choice(["sum", "sumN", "hist"])
-                    nd = {"k": "comp", "f": f, "a": {"node": rng.randrange(ew)}, "b": {"const": 0}}
+                    nd = {"k": "comp", "f": f, "a": {"node": selnode if selnode is not None and rng.random() < 0.7 else rng.randrange(ew)},
+                          "b": {"const": 0}}
                     if f == "hist":
                         nd["edges"] = sorted(rng.sample(range(-30, 60), rng.randrange(2, 6)))
                     nodes.append(nd)
@@ -947,7 +981,7 @@ def oracle(c):
         return [sum(r) for r in data]
     if op == "quantile":
         if not data:
-            return SKIP
+            return {"err": "other:IndexError"}      # `cumulative[-1]` of no data, in memory as well
         size = max(data) + 1
         hist = [data.count(v) for v in range(size)]
         cum, tot = [], 0
@@ -959,6 +993,8 @@ def oracle(c):
         size = max([max(data) + 1 if data else 0, c["minlength"]])
         return [data.count(v) for v in range(size)]
     if op == "histogram":
+        if any(a > b for a, b in zip(c["edges"], c["edges"][1:])):
+            return {"err": "value"}      # np.histogram: bins must increase monotonically (equal neighbours are allowed)
         return {"hist": _hist(data, c["edges"]), "edges": list(c["edges"])}
     if op == "histogram_default":
         lo, hi = min(data), max(data)
@@ -1183,14 +1219,14 @@ def impl_live(c):
 def _as_value(c, exp):
     """what the implementation's observation should be, from the oracle value"""
     if c["op"] == "mean":
-        return _fl(Fraction(exp["sum"], exp["n"] * c["scale"]))
+        return _fl(Fraction(exp["sum"], exp["n"] * c["scale"])) if exp["n"] else _fl(float("nan"))
     if c["op"] == "mean_axis0" and isinstance(exp, list):
-        return [_fl(Fraction(x, exp[-1])) for x in exp[:-1]] if exp[-1] else None
+        return [_fl(Fraction(x, exp[-1])) if exp[-1] else _fl(float("nan")) for x in exp[:-1]]
     if c["op"] == "rowmean" and isinstance(exp, list):
         return [_fl(Fraction(x, c["w"])) for x in exp]
     if c["op"] == "graph_many" and c["mode"] == "reduce" and isinstance(exp, dict) and "vals" in exp:
         fs = [c["nodes"][r].get("f") for r in c["roots"]]
-        return {"vals": [(_fl(Fraction(v[0], v[1])) if v[1] else None) if f == "sumN" else v for f, v in zip(fs, exp["vals"])]}
+        return {"vals": [(_fl(Fraction(v[0], v[1])) if v[1] else _fl(float("nan"))) if f == "sumN" else v for f, v in zip(fs, exp["vals"])]}
     return exp
 
 
